@@ -23,6 +23,13 @@ fn gen(rng: &mut Rng, _i: u64) -> String {
 		let k = rng.below(spec.secs.len() as u64) as usize;
 		spec.secs[k].name = *b".text\0\0\0";
 		if rng.chance(1, 2) { let j = rng.below(spec.secs.len() as u64) as usize; spec.secs[j].name = *b"12345678"; }
+		// names with an interior NUL (the field is NUL padded, not NUL terminated), placed BEFORE the plain name they
+		// would shadow under a prefix / NUL-terminated comparison
+		if rng.chance(1, 2) && spec.secs.len() >= 2 {
+			let j = rng.below(spec.secs.len() as u64 - 1) as usize;
+			spec.secs[j].name = *rng.pick(&[*b".s\0x\0\0\0\0", *b".text\0\0x", *b"\0hidden\0", *b".s0\0\0\0\0z", *b"ab\0cd\0\0\0"]);
+			if rng.chance(1, 2) { spec.secs[j + 1].name = *rng.pick(&[*b".s\0\0\0\0\0\0", *b"ab\0\0\0\0\0\0", *b".s0\0\0\0\0\0"]); }
+		}
 	}
 	spec.nsec_field = spec.secs.len() as u16;
 	// header field mutations
@@ -94,6 +101,27 @@ fn gen(rng: &mut Rng, _i: u64) -> String {
 		let w = (0xFFFF - r) as u16; // in 1..=0xFFFF
 		img.pokes.push((0x28, w.to_le_bytes().to_vec()));
 	}
+	if !huge && !short_dirs && rng.chance(1, 300) && e_lfanew >= 0x40 {
+		// carry storm: more than 65535 dwords of 0xFFFFFFFF behind the headers, and one adjusting dword chosen so that
+		// (low 32 bits of the unbounded dword sum) + (number of carries) = 2^32 + 0xFFFF.  A sum that adds the carries
+		// back once at the end instead of at every step (or folds them in a different order) differs from the
+		// standard checksum on exactly such images; below 2^16 carries the two cannot be told apart.
+		let k = 65537 + rng.below(200) as usize;
+		let start = (struct_end.max(64) + 3) & !3;
+		img.len = start + 4 * (k + 1);
+		img.fill = 0xFFFF_FFFF;
+		let bytes = img.bytes();
+		let skip = (e_lfanew as usize + 24 + 64) / 4;
+		let nd = bytes.len() / 4;
+		let mut s0: u64 = 0;
+		for i in 0..nd - 1 { if i != skip { s0 += u32::from_le_bytes([bytes[4 * i], bytes[4 * i + 1], bytes[4 * i + 2], bytes[4 * i + 3]]) as u64; } }
+		let (lo0, hi0) = (s0 & 0xFFFF_FFFF, s0 >> 32);
+		let want = (1u64 << 32) + 0xFFFF;
+		if hi0 > 0xFFFF && lo0 + hi0 <= want && want - lo0 - hi0 < (1u64 << 32) - lo0 {
+			let x = (want - lo0 - hi0) as u32;
+			img.pokes.push((4 * (nd - 1), x.to_le_bytes().to_vec()));
+		}
+	}
 	let place = *rng.pick(&[0usize, 0, 0, 4, 8, 12, 4, 8, 12, 0, 4, 8, 1, 2, 6]);
 	// lookups
 	let mut rvas: Vec<u32> = vec![0, 0x1000, 0xFFF, 0xFFFF_FFFF];
@@ -102,6 +130,7 @@ fn gen(rng: &mut Rng, _i: u64) -> String {
 	}
 	let mut names: Vec<String> = vec![hex(b".text"), hex(b".text\0"), hex(b".s0"), hex(b".s"), hex(b"12345678"), hex(b"123456789"), hex(b".s1\0\0\0\0\0"), "-".to_string(), hex(b".s0\0\0\0\0\0\0")];
 	names.truncate(rng.range(3, 9) as usize);
+	for n in [&b"ab"[..], b".s\0x", b"", b"\0hidden", b".text\0\0x", b".s0\0\0\0\0z", b"ab\0cd"] { if rng.chance(1, 3) { names.push(if n.is_empty() { "-".to_string() } else { hex(n) }); } }
 	format!("hdr fmt={} place={} {} rvas={} names={}", if pe64 { 64 } else { 32 }, place, img.encode(), join(&rvas, ","), names.join(","))
 }
 
